@@ -72,7 +72,7 @@ def rec_spec(draw, max_frames=20000):
 def recording(rs):
     from soundevent import data
 
-    if rs["rate"] not in RATES or rs["frames"] < 100 or rs["channels"] < 1 or rs["te"] not in (0.5, 1.0, 2.0, 5.0, 10.0):
+    if rs["rate"] not in RATES or rs["frames"] < 100 or rs["frames"] > 200000 or rs["channels"] < 1 or rs["te"] not in (0.5, 1.0, 2.0, 5.0, 10.0):
         raise ValueError("malformed spec")
 
     path, frames = wav(rs["rate"], rs["channels"], rs["frames"])
@@ -223,7 +223,18 @@ def derive_case(draw):
         hs = draw(st.integers(1, ws))
         wf, hf = (0.0, 0.0) if wmode == "whole" else (draw(st.sampled_from([0.0, 0.25, 0.5, 0.9])), draw(st.sampled_from([0.1, 0.25, 0.5, 0.9])))
         wins.append([ws + wf, hs + hf if hs + hf <= ws + wf else float(hs)])
-    return {"rec": rs, "a": a, "off": off, "length": length, "ops": ops, "targets": targets, "wins": wins, "whole_recording": draw(st.integers(0, 3)) == 0}
+    spec = {"rec": rs, "a": a, "off": off, "length": length, "ops": ops, "targets": targets, "wins": wins, "whole_recording": draw(st.integers(0, 3)) == 0,
+            "sample_dtype": draw(st.sampled_from([None, None, "float32"]))}
+    if draw(st.integers(0, 5)) == 0:
+        # a clip late in a long low-rate recording (times beyond 1000 s) - coordinates must stay double precision
+        spec["rec"] = {"rate": draw(st.sampled_from([93, 99])), "channels": 1, "frames": 150000, "te": 1.0}
+        spec["a"] = draw(st.integers(100000, 149000))
+        spec["length"] = draw(st.integers(64, 400))
+        spec["whole_recording"] = False
+        spec["ops"] = ["resample"] + spec["ops"][:1]
+        spec["targets"] = [draw(st.sampled_from([16000, 44100]))] + spec["targets"][:1]
+        spec["wins"] = [spec["wins"][0]] + spec["wins"][:1]
+    return spec
 
 
 def check_derive(spec, ctx):
@@ -238,6 +249,9 @@ def check_derive(spec, ctx):
         clip = data.Clip(uuid=str(uuidlib.UUID(int=3)), recording=rec, start_time=start, end_time=start + spec["length"] / sr)
         src = audio.load_clip(clip)
         what = "load_clip"
+    if spec.get("sample_dtype"):
+        src = src.astype(spec["sample_dtype"])  # single-precision samples; the time axis is unaffected by the sample dtype
+        what += ".astype(float32)"
     produced = [(what, src, float(src.coords["time"].values[0]) if src.sizes["time"] else None)]
     frac = False
     cur = src
